@@ -55,6 +55,9 @@ func genC17(r *Rng, seed uint64) *C17Spec {
 		for i := 0; i < n; i++ {
 			out = append(out, classNames[p[i]])
 		}
+		if r.Chance(0.12) {
+			out = append(out, out[r.Intn(len(out))]) // the same class named twice
+		}
 		return out
 	}
 	switch k := r.Intn(20); {
